@@ -82,6 +82,12 @@ pub struct TreeCacheCheckpoint {
     stack: Vec<u32>,
     serialized_nodes: BitSet,
     sentinel_entry: Option<u32>,
+    /// the number of node entries when the checkpoint was taken. Everything
+    /// update() records after this point is forgotten by restore()
+    num_entries: u32,
+    /// the parents of the sentinel's entry. update() hands them over to the
+    /// root of the next tree, restore() gives them back
+    sentinel_parents: Vec<(u32, ChildPos)>,
 }
 
 /// The TreeCache builds a "shadow tree" mirroring a CLVM tree but with
@@ -158,10 +164,16 @@ impl TreeCache {
             Some(sentinel) => self.node_map.get(&sentinel).cloned(),
             None => None,
         };
+        let sentinel_parents = match sentinel_entry {
+            Some(idx) => self.node_entries[idx as usize].parents.clone(),
+            None => vec![],
+        };
         TreeCacheCheckpoint {
             stack: self.stack.clone(),
             serialized_nodes: self.serialized_nodes.clone(),
             sentinel_entry,
+            num_entries: self.node_entries.len() as u32,
+            sentinel_parents,
         }
     }
 
@@ -173,14 +185,37 @@ impl TreeCache {
             debug_assert_eq!(e.on_stack, 0);
         }
 
+        // forget the shadow tree of everything that was added after the
+        // checkpoint. Otherwise a later update() can pick up nodes, and links
+        // to parents, that describe a tree which is no longer there, and
+        // find_path() would produce paths through it.
+        let n = st.num_entries;
+        self.node_entries.truncate(n as usize);
+        self.node_map.retain(|_, idx| *idx < n);
+        self.atom_lookup.retain(|_, idx| *idx < n);
+        self.pair_lookup.retain(|_, idx| *idx < n);
+        for e in &mut self.node_entries {
+            // links to forgotten parents, and the links the sentinel handed
+            // over to the root of the tree that's being undone
+            e.parents
+                .retain(|p| p.0 < n && !st.sentinel_parents.contains(p));
+        }
+
         self.stack = st.stack;
         for idx in &self.stack {
             self.node_entries[*idx as usize].on_stack += 1;
         }
         self.serialized_nodes = st.serialized_nodes;
-        if let Some(sentinel_entry) = st.sentinel_entry {
-            self.node_map
-                .insert(self.sentinel_node.unwrap(), sentinel_entry);
+        if let Some(sentinel) = self.sentinel_node {
+            match st.sentinel_entry {
+                Some(sentinel_entry) => {
+                    self.node_map.insert(sentinel, sentinel_entry);
+                    self.node_entries[sentinel_entry as usize].parents = st.sentinel_parents;
+                }
+                None => {
+                    self.node_map.remove(&sentinel);
+                }
+            }
         }
     }
 
